@@ -42,7 +42,7 @@ def apply_inc(kind, cur, inc):
     return (cur + inc) & ((1 << WIDTH[kind]) - 1)
 
 
-def gen_run(rng, rid, mode, tier):
+def gen_run(rng, rid, mode, tier, workers=16):
     kind = rng.weighted([("i32", 3), ("i64", 3), ("x32", 1), ("x64", 1), ("f", 4), ("d", 4), ("m32", 2), ("m64", 2), ("md", 2),
                          ("c32", 2), ("c64", 2), ("cp", 2)])
     w = WIDTH[kind]
@@ -50,16 +50,16 @@ def gen_run(rng, rid, mode, tier):
     nthr = rng.choice([2, 3, 4, 6, 8, 16] if mode == "P" else [2, 3, 4, 8, 12, 16])
     big = tier != "quick"
     if kind in ("c32", "c64", "cp"):
-        return dict(id=rid, mode=mode, kind=kind, nthr=nthr, nops=rng.range(20, 120 if big else 60), yield_every=0, init=rng.choice([0, 5, 77]),
+        return dict(id=rid, mode=mode, kind=kind, nthr=nthr, nops=(rng.range(4, 12) if mode == "Q" else rng.range(20, 120 if big else 60)), yield_every=0, init=rng.choice([0, 5, 77]),
                     flavour="cas", pats=[])
     flavour = rng.weighted([("plus1", 3), ("pos", 3), ("neg", 2), ("wrap", 2), ("mixed_small", 2), ("mixed", 2)])
     nops = rng.range(200, 3000 if big else 1200)
-    yield_every = rng.choice([0, 0, 1, 7, 64]) if mode == "Q" else rng.choice([0, 0, 0, 50])
+    yield_every = 0 if mode == "Q" else rng.choice([0, 0, 0, 50])
     isf = kind in FLOATK
     if flavour == "mixed_small":
         nthr = rng.choice([2, 3])
         nops = rng.range(5, 40)
-        yield_every = rng.choice([0, 1, 3])
+        yield_every = 0 if mode == "Q" else rng.choice([0, 1, 3])
     pats = []
     for t in range(nthr):
         n = rng.range(1, 6)
@@ -152,6 +152,13 @@ def oracle_incr(r, final, rets):
     for t in range(r["nthr"]):
         if len(rets.get(t, [])) != r["nops"]:
             return "thread %d returned %d values for %d operations" % (t, len(rets.get(t, [])), r["nops"]), None
+    if r["flavour"] == "nan":
+        # NaN + x = NaN (same bit pattern): the loop must compare bit patterns, or it never terminates / mis-detects success
+        badr = [(t, v) for t in rets for v in rets[t] if v != init]
+        if badr or final != init:
+            return "NaN cell: thread %s returned 0x%x / final 0x%x, expected the NaN bit pattern 0x%x throughout" % (
+                badr[0][0] if badr else "-", badr[0][1] if badr else final, final, init), None
+        return None, None
     # totals: no lost update
     if isf:
         tot = fval(kind, init) + sum(fval(kind, e[2]) for e in ev)       # exact: all partial sums are representable
@@ -340,11 +347,15 @@ def run(ctx):
     # ---- tie 2: contention runs
     qconfigs = [(2, 2), (4, 1)] if quick else [(1, 1), (2, 2), (4, 1), (3, 2), (8, 1), (2, 4)]
     nP = 26 if quick else 90
-    nQ = 9 if quick else 20
-    batches = [("P", None, [gen_run(rng, i, "P", ctx.tier) for i in range(nP)])]
-    rid = nP
+    nQ = 5 if quick else 12          # few: a fork/join on an oversubscribed machine costs up to seconds
+    corpus = [dict(id=0, mode="P", kind="f", nthr=2, nops=50, yield_every=0, init=0x7fc00000, flavour="nan",
+                   pats=[[fbits("f", 1.0)], [fbits("f", 2.0)]]),
+              dict(id=1, mode="P", kind="d", nthr=3, nops=50, yield_every=0, init=0x7ff8000000000000, flavour="nan",
+                   pats=[[fbits("d", 1.0)], [fbits("d", -2.0)], [fbits("d", 0.5)]])]
+    batches = [("P", None, corpus + [gen_run(rng, 2 + i, "P", ctx.tier) for i in range(nP)])]
+    rid = nP + 2
     for cfgq in qconfigs:
-        batches.append(("Q", cfgq, [gen_run(rng, rid + i, "Q", ctx.tier) for i in range(nQ)]))
+        batches.append(("Q", cfgq, [gen_run(rng, rid + i, "Q", ctx.tier, cfgq[0] * cfgq[1]) for i in range(nQ)]))
         rid += nQ
     evals = 0
     nontrivial = 0
@@ -388,7 +399,7 @@ def run(ctx):
                     oracle_fail.append((why, dict(case, final="%x" % final, rets={t: ["%x" % v for v in rets[t][:40]] for t in rets})))
                     continue
                 if lin is None:
-                    inconclusive += 1
+                    inconclusive += r["flavour"] != "nan"
                     continue
                 switches = sum(1 for a, b in zip(lin, lin[1:]) if a[0] != b[0])
                 if switches >= 2 * r["nthr"]:
